@@ -42,11 +42,11 @@ def main():
         orig_push = HeapScheduler.push_event
         seen = {}
 
-        def push_event(self, time, event_handler):
+        def push_event(self, time, event_handler, *rest, **k):
             if event_handler not in self._minimal_valid_counter:
                 seen[id(self)] = seen.get(id(self), 0) + 1
                 self._minimal_valid_counter[event_handler] = 2 ** 32 - 1 - (seen[id(self)] * 7) % a.preset_counters
-            return orig_push(self, time, event_handler)
+            return orig_push(self, time, event_handler, *rest, **k)
         HeapScheduler.push_event = push_event
     os.makedirs(a.workdir, exist_ok=True)
     os.chdir(a.workdir)
@@ -117,6 +117,16 @@ def main():
         rec.emit("end", reason=rec.stop_reason or "end_of_run", exc="", children=live_children())
     except BaseException as e:   # noqa
         status = dict(ok=False, exc=type(e).__name__, msg=str(e)[:500], tb=traceback.format_exc()[-3000:])
+        # an exception raised by the harness's own code (recorder wrapper reading an attribute that no longer exists, calling
+        # a wrapped method with an outdated signature, ...) is a failure of the machinery, not of the code under test
+        tb_last = e.__traceback__
+        while tb_last is not None and tb_last.tb_next is not None:
+            tb_last = tb_last.tb_next
+        if tb_last is not None and os.sep + "harness" + os.sep in tb_last.tb_frame.f_code.co_filename \
+                and not isinstance(e, (SystemExit, KeyboardInterrupt)):
+            status = dict(ok=False, exc="harness", msg="%s raised in %s:%d: %s" % (
+                type(e).__name__, os.path.basename(tb_last.tb_frame.f_code.co_filename), tb_last.tb_lineno, str(e)[:300]),
+                tb=traceback.format_exc()[-3000:])
         try:
             rec.emit("end", reason="exception", exc=type(e).__name__, msg=str(e)[:300], children=live_children())
         except Exception:
